@@ -191,7 +191,7 @@ def check_history(w):
 
 def check_c15(w, rec, st):
     kind = rec["kind"]
-    if kind in ("convert", "drop", "forget", "set_default_dtype", "mutate_output", "signal", "wait", "barrier", "extra"):
+    if kind in ("convert", "drop", "forget", "set_default_dtype", "mutate_output", "signal", "wait", "barrier", "extra", "newapi"):
         return
     if kind == "backward":
         return check_backward(w, rec, st, "recipe")
